@@ -28,6 +28,7 @@
 EXTENDS Integers, Sequences, FiniteSets, TLC
 
 CONSTANTS MaxPg, InitN, MaxVer, MaxFrames, MaxTx, MaxGen, MaxDown, FixF1, FixF2, FixG1, Modes, AppModes, AtomicChk, WithCrash,
+          FixM2,                  \* the prev-frame-mismatch fallback of sync() takes a snapshot (repair of M2)
           ReqCtx, FixQ1, FixQ2    \* litestream calls run under a request-scoped context (cancelled when the call returns) / the read transaction is detached from it
 
 Pages == 1..MaxPg
@@ -246,7 +247,7 @@ SyncResult(info) ==
       pagesInc == [p \in Pages |-> IF growth(p) THEN dbf[p] ELSE pm[p]]
       pagesSnap == [p \in Pages |-> IF p > commit THEN Absent ELSE IF pm[p] # Absent THEN pm[p] ELSE dbf[p]]
       \* (a previous frame that does not verify any more means the WAL changed after verify(): the file is a snapshot - repair of M2)
-      snap2 == info.snap \/ ~prevOK
+      snap2 == info.snap \/ (FixM2 /\ ~prevOK)
       pages == IF snap2 THEN pagesSnap ELSE pagesInc
       readErr == \E p \in Pages : p <= commit /\ pages[p] = Absent /\ (snap2 \/ growth(p))
   IN IF ~snap2 /\ n = 0
